@@ -154,6 +154,17 @@ func Main(t *testing.T, prop string) {
 			}
 		}
 	}
+	// C14 scenario outside the model (no model case: runs last)
+	scenarioUnreadable := func() {
+		cs := &Case{Name: "scenario-unreadable-path-replay", N: 3}
+		c.Case(cs.Name, true, cs)
+		c.Count("scenario")
+		for _, ahead := range []int{0, 3, 100} {
+			for _, f := range ScenarioUnreadablePathReplay(ahead) {
+				c.Fail(f.Sig, fmt.Sprintf("[%s, relay counter %d ahead] %s", cs.Name, ahead, f.Detail), cs)
+			}
+		}
+	}
 	if c.Replay != "" {
 		var cs Case
 		if err := c.ReadReplay(&cs); err != nil {
@@ -161,6 +172,8 @@ func Main(t *testing.T, prop string) {
 		}
 		if cs.Name == "stress-concurrent-copies" {
 			stress(cs.N)
+		} else if cs.Name == "scenario-unreadable-path-replay" {
+			scenarioUnreadable()
 		} else {
 			one(&cs, nil)
 		}
@@ -193,6 +206,9 @@ func Main(t *testing.T, prop string) {
 		}
 		if prop == "C11" {
 			stress(c.N(6000, 30000))
+		}
+		if prop == "C14" {
+			scenarioUnreadable()
 		}
 	}
 	if full {
